@@ -334,9 +334,12 @@ class PteraTransformer(NodeTransformer):
     def _set(self, name):
         return ast.Name(id=self.lib[name][0], ctx=ast.Store())
 
-    def _interact(self, *args):
+    def _interact(self, *args, fullname=None):
         varname, key, ann, value, overridable = args
-        if not self.should_instrument(varname, ann):
+        if not self.should_instrument(varname, ann) and not (
+            # e.g. the selector f > obj.attr names the variable "obj.attr"
+            fullname is not None and self.should_instrument(fullname, ann)
+        ):
             return value if isinstance(value, ast.AST) else ast.Constant(value)
 
         args = [
@@ -494,6 +497,10 @@ class PteraTransformer(NodeTransformer):
 
         if value_args is None:
             new_value = value
+        elif isinstance(target, ast.Attribute):
+            new_value = self._interact(
+                *value_args, fullname=f"{target.value.id}.{target.attr}"
+            )
         else:
             new_value = self._interact(*value_args)
         if isinstance(target, str):
